@@ -156,7 +156,7 @@ func runPostfix(ctx *bex.Ctx) {
 	ctx.Space("postfix-and-keyword-forms")
 	maxN := maxTableSize(bounds)
 	eachTable(maxN, func(idx int64, t *table) bool {
-		if t.Alias != "" || t.deadEnd {
+		if t.Alias != "" || t.class != "pool" {
 			return true
 		}
 		if !ctx.Mine(mix(idx)) {
